@@ -76,8 +76,9 @@ func isInsecure(p cPattern) bool {
 	if p.Scheme == "https" {
 		return false
 	}
-	h := strings.TrimSuffix(p.Host, ".")
-	if h == "localhost" && !p.Wild {
+	// `localhost.` (trailing dot) is not byte-equal to localhost: the library deems it insecure (stricter than the documented
+	// rule needs; asking for tolerance when it may be needed is always permitted)
+	if p.Host == "localhost" && !p.Wild {
 		return false
 	}
 	if strings.HasPrefix(p.Host, "127.") || p.Host == "[::1]" {
